@@ -163,9 +163,22 @@ static void run_op(int idx)
 			return;
 		}
 		if (op->kind == S_REPLACE_EINVAL) {
-			ret = cds_lfht_replace(ht, &it, khash[(k + 1) % SKEYS], match_fn, &kval[(k + 1) % SKEYS], &mine->n);
+			/* the documented argument check: hash and key must both be those of the node being replaced */
+			int ok = (k + 1) % SKEYS;
+			switch (op->b % 3) {
+			case 0:	/* another key with its own hash */
+				ret = cds_lfht_replace(ht, &it, khash[ok], match_fn, &kval[ok], &mine->n);
+				break;
+			case 1:	/* same hash, another key */
+				ret = cds_lfht_replace(ht, &it, khash[k], match_fn, &kval[ok], &mine->n);
+				break;
+			default: /* same key, another hash */
+				ret = cds_lfht_replace(ht, &it, khash[k] ^ (1UL << (op->b % 64)), match_fn, &kval[k], &mine->n);
+				break;
+			}
 			if (ret != -EINVAL)
-				MISMATCH("op #%d replace with a different key returned %d instead of -EINVAL", idx, ret);
+				MISMATCH("op #%d replace with a different %s returned %d instead of -EINVAL", idx,
+					op->b % 3 == 0 ? "key and hash" : op->b % 3 == 1 ? "key (same hash)" : "hash (same key)", ret);
 			nodes[mine->id] = NULL;
 			F->read_unlock();
 			free(mine);
@@ -353,6 +366,8 @@ void scen_lfht_seq(void)
 		else if (r < 93) op->kind = S_RESIZE;
 		else if (r < 97) op->kind = S_DEL_TWICE;
 		else op->kind = S_REPLACE_EINVAL;
+		if (op->kind == S_REPLACE_EINVAL)
+			op->b = rnd(192);	/* which argument is wrong, and which hash bit */
 		if (op->kind <= S_REPLACE || op->kind == S_REPLACE_EINVAL) {
 			if (id >= 60)
 				op->kind = S_LOOKUP;
